@@ -4,6 +4,7 @@ import Driver.Util
 import Driver.DecoderApi
 -- @family linkdecapi Drv.Links.hLinkDecApi
 -- @family linkinteg Drv.Links.hLinkInteg
+-- @family linkraw Drv.Links.hLinkRaw
 /-!
 Executable cross-checks of the links between the decoder models (`FitProps/Links.lean`): both models are evaluated
 on the same operation line and the projections compared — a sanity net beside the theorems (and the place where a
@@ -15,6 +16,9 @@ first token replaced (`checklib/props/_links.py`):
   `CheckIntegrity` of (C) against (B);
 * `linkinteg b:<hex>` (arguments of an `integ` / `dfrag` / `rawdec` line; others ignored) — (B) `Integrity` against (D) and
   against (C), `CheckIntegrity` and the decode loop with both checksum settings.
+
+* `linkraw b:<hex>` (arguments of a `rawdec` line) — where the independent framing spec `FitFormat.segments` segments the
+  stream, the raw decoder model must accept it and report exactly those segments (`Link_fitformat_raw`).
 
 Answer: `ok`, `n/a:<hypothesis not met>`, or `diff:<which>`.
 -/
@@ -79,5 +83,19 @@ def hLinkInteg : Handler := modelOnly fun args =>
       (if ciLinkOK {} bs then [] else ["ci-C"]) ++
       (if dec true then [] else ["dec1"]) ++ (if dec false then [] else ["dec0"])
     if bad.isEmpty then "ok" else "diff:" ++ ",".intercalate bad
+
+def hLinkRaw : Handler := modelOnly fun args =>
+  match bytesArg args with
+  | none => "bad-op"
+  | some bs =>
+    match Fit.FitFormat.segments bs with
+    | none => "n/a:spec-rejects"
+    | some segs =>
+      if bs.isEmpty then "n/a:empty" else
+      let out := runExact (Fit.Raw.decode none (bs.length + 1) {}) bs
+      if out.status.isSome then "diff:raw-rejects"
+      else if layout 0 out.segs != segs then "diff:segments"
+      else if Fit.Raw.flat out.segs != bs then "diff:bytes"
+      else "ok"
 
 end Drv.Links
